@@ -31,6 +31,69 @@ static std::string spec_normalize(std::string const &in)
 	for(size_t k=0;k<st.size();k++) r+="/"+st[k];
 	return r.empty() ? "/" : r;
 }
+// ---- sweep: the REAL file_server::check_in_document_root (normalize_path, alias loop, is_in_root / canonical) on a sandbox on disk.
+// Oracle, from the property: N = normalised request; the root is the document root unless an alias URL is a whole-component prefix of N
+// (then the alias target, with the prefix stripped); without symlink checking the name served is root ++ rest, with it the name is
+// realpath(root ++ rest) and must lie inside that root.
+#include <sys/stat.h>
+#include <unistd.h>
+#include <limits.h>
+#include <cppcms/service.h>
+#include <cppcms/json.h>
+static void put(std::string const &p,std::string const &c) { std::ofstream f(p.c_str()); f << c; }
+static bool comp_prefix(std::string const &pre,std::string const &full) { return full==pre || (full.size()>pre.size() && full.compare(0,pre.size(),pre)==0 && full[pre.size()]=='/'); }
+static int sweep_docroot()
+{
+	char cwd[PATH_MAX]; if(!getcwd(cwd,sizeof(cwd))) return 2;
+	std::string box=std::string(cwd)+"/box";
+	mkdir(box.c_str(),0755); mkdir((box+"/root").c_str(),0755); mkdir((box+"/root/sub").c_str(),0755); mkdir((box+"/alias_t").c_str(),0755); mkdir((box+"/outside").c_str(),0755); mkdir((box+"/rootx").c_str(),0755);
+	put(box+"/root/a.txt","a"); put(box+"/root/sub/b.txt","b"); put(box+"/alias_t/c.txt","c"); put(box+"/outside/secret.txt","s"); put(box+"/rootx/x.txt","x"); put(box+"/root/.hidden","h");
+	if(symlink("../outside",(box+"/root/link_out").c_str())!=0 || symlink("sub",(box+"/root/link_in").c_str())!=0 || symlink("../outside/secret.txt",(box+"/alias_t/link_file").c_str())!=0) return 2;
+	char rp[PATH_MAX]; if(!realpath(box.c_str(),rp)) return 2; box=rp;
+	char const *seg[]={"a.txt","sub","b.txt",".","..","","al","alx","link_out","link_in","secret.txt","c.txt","link_file","rootx","outside"};
+	int const nseg=sizeof(seg)/sizeof(seg[0]);
+	long checked=0;
+	for(int cfgno=0;cfgno<6;cfgno++) {
+		bool symcheck=cfgno%2==0; int nal=cfgno/2;
+		cppcms::json::value cfg; cfg["service"]["api"]="scgi"; cfg["service"]["socket"]=box+"/s.sock"; cfg["service"]["worker_threads"]=1;
+		cfg["file_server"]["document_root"]=box+"/root"; cfg["file_server"]["check_symlink"]=symcheck;
+		std::vector<std::pair<std::string,std::string> > al;
+		if(nal>=1) { al.push_back(std::make_pair(std::string("/al"),box+"/alias_t")); }
+		if(nal>=2) { al.push_back(std::make_pair(std::string("/sub/alx"),box+"/root/sub")); }
+		for(size_t i=0;i<al.size();i++) { cfg["file_server"]["alias"][i]["url"]=al[i].first+(i==0?"/":""); cfg["file_server"]["alias"][i]["path"]=al[i].second; }
+		cppcms::service srv(cfg);
+		cppcms::impl::file_server fs(srv,false);
+		for(int len=0;len<=4;len++) {
+			int idx[4]={0,0,0,0};
+			for(;;) {
+				for(int lead=0;lead<2;lead++) for(int trail=0;trail<2;trail++) {
+					std::string P=lead?"/":"";
+					for(int k=0;k<len;k++) { if(k) P+="/"; P+=seg[idx[k]]; }
+					if(trail) P+="/";
+					std::string N=spec_normalize(P);
+					std::string root=box+"/root",rest=N; 
+					for(size_t i=0;i<al.size();i++) if(comp_prefix(al[i].first,N)) { root=al[i].second; rest=N.substr(al[i].first.size()); if(rest.empty()) rest="/"; break; }
+					bool want; std::string want_real;
+					if(!symcheck) { want=true; want_real=root+rest; if(!want_real.empty() && want_real[want_real.size()-1]=='/') want_real.resize(want_real.size()-1); }
+					else {
+						char buf[PATH_MAX];
+						if(!realpath((root+rest).c_str(),buf)) want=false;
+						else { want_real=buf; want=comp_prefix(root,want_real); }
+					}
+					std::string real; bool got=fs.check_in_document_root(P,real);
+					checked++;
+					std::ostringstream m; m << "request [" << P << "] check_symlink=" << symcheck << " aliases=" << al.size() << ": ";
+					if(got && !want) return replay_fail(m.str()+"accepted as ["+real+"], which is not inside the document root / alias target the request selects");
+					if(!got && want) return replay_fail(m.str()+"rejected although it names ["+want_real+"] inside its root");
+					if(got && real!=want_real) return replay_fail(m.str()+"mapped to ["+real+"], the property allows only ["+want_real+"]");
+				}
+				int k=len-1; while(k>=0 && ++idx[k]==nseg) { idx[k]=0; k--; }
+				if(k<0) break;
+			}
+		}
+	}
+	std::ostringstream m; m << checked << " (request, configuration) pairs on the sandbox"; return replay_ok(m.str());
+}
 int main(int argc,char **argv)
 {
 	if(argc<3) return 2;
@@ -45,5 +108,6 @@ int main(int argc,char **argv)
 		if(p!=s) return replay_fail("normalize_path differs from the reference resolution of '.', '..' and '//'");
 		return replay_ok();
 	}
+	if(what=="docroot") return sweep_docroot();
 	return 2;
 }
